@@ -89,6 +89,8 @@ def events_of_path(path, vmap=None):
             evs.append({'a': act, 'i': a[0]})
         elif act in ('Tick', 'Shutdown', 'Connect'):
             evs.append({'a': act})
+        elif act == 'Jump':
+            evs.append({'a': act, 'to': a[0]})
         elif act == 'RecvJunk':
             evs.append({'a': act, 'j': 'junk', 'hex': JUNK_BASIC[len(evs) % len(JUNK_BASIC)]})
         else:
@@ -189,9 +191,9 @@ def random_schedule(rng, front, n_events, weights=None, junk=None, max_ints=10, 
                 attached.discard(tuple(n)); ops += 1
             elif a == 'RecvInterest':
                 params = rng.random() < 0.5
-                signed = params and rng.random() < 0.5
+                signed = (params and rng.random() < 0.5) or (not params and rng.random() < 0.08)
                 it = {'name': rng.choice(NAMES[1:]), 'params': params, 'pe': params and rng.random() < 0.3, 'signed': signed,
-                      'digOk': (rng.random() < 0.75) if params else True,
+                      'digOk': (rng.random() < 0.75) if params else not signed,
                       'tok': rng.choice([0, 0, 1, 2, 3, 4, 5]), 'life': rng.choice([0, 1, 1, 2, 3, 400])}
                 env = rng.choice(['lp', 'lph', 'lpo']) if it['tok'] else rng.choice(['bare', 'lp', 'lph', 'lpo'])
                 emit({'a': a, 'it': it, 'env': env})
@@ -210,7 +212,13 @@ def random_schedule(rng, front, n_events, weights=None, junk=None, max_ints=10, 
             elif a == 'Connect':
                 emit({'a': a})
             else:
-                emit({'a': 'Tick'})
+                # sometimes a long stretch: up to / past the deadline of an Interest whose lifetime is the 4 s default
+                now = run.tick()
+                far = sorted({info['dl'] for info in run.intinfo.values() if info.get('dl', 0) > now + 3})
+                if far and rng.random() < 0.3:
+                    emit({'a': 'Jump', 'to': far[0] + rng.choice([-1, 0, 0, 1])})
+                else:
+                    emit({'a': 'Tick'})
     finally:
         run.close()
     return {'ev': evs}
